@@ -10,7 +10,7 @@ namespace DictIO.C08.Re
 open DictIO.Gen
 
 theorem re_parser_NativeParser__extract_line_comments :
-    regexesOf "parser.py" "NativeParser._extract_line_comments" = ["search:(?<!:)/{2}.*$", "findall:(?<!:)/{2}.*$"] := rfl
+    regexesOf "parser.py" "NativeParser._extract_line_comments" = ["search:(?<!:)/{2}.*$"] := rfl
 
 theorem re_parser_NativeParser__extract_includes :
     regexesOf "parser.py" "NativeParser._extract_includes" = ["search:^\\s*#\\s*include", "sub:(^\\s*#\\s*include\\s*|\\s*$)"] := rfl
